@@ -233,7 +233,7 @@ PROPS = {
         'level_text': 'Full proof (over R) for every configuration with kt_start = 0, every (history-dependent) score function and every accept/reject history with non-negative thresholds: the temperature stays 0, an accepted score is never below the current one, the tracked score is non-decreasing along the run and the result is at least the input; for parameter-only scores the score of the returned state is at least that of the input. About the executable optimiser model, which reproduces whole optimise_state runs bit-for-bit from the seed.',
         'level_note': 'Trusted: Lean kernel + 3 axioms; optimiser model tied by bit-exact opt/optc families (scripted recording State and real crystal states, PCG port); real numbers have no NaN/inf: the IEEE behaviour at kt in {+0,-0,NaN} is covered by the guard `!(kt > 0)` being the first test (modelled literally) and by the carrier-generic NaN theorem in C07.',
         'technique': 'Lean 4 induction over optimiser runs (invariant) + source-to-Lean translation of the function bodies with tie theorems + bit-exact differential correspondence of whole runs',
-        'theorems': ['Proofs.C05', 'Proofs.TieAccept', 'Proofs.TieBuild'],
+        'theorems': ['Proofs.C05', 'Proofs.TieAccept', 'Proofs.TieBuild', 'Proofs.TieLoopTail'],
         'families': [('opt', 1500, 30000)],
         'search': (10, 240),
         'rule': 'opt: scripted recording states (explicit outcome lists with ties/invalids, quadratic bowls with forbidden zones) x configuration grid (kt_start 0/positive, kt_finish, kt_ratio incl. >1, steps/inner incl. 0, non-multiples, inner>steps, convergence); optc: real hard/LJ crystal states, 7 groups; non-trivial = run with >= 5 score calls; distinct by request text; search: history monitors on the real optimiser with kt_start = 0',
@@ -255,7 +255,7 @@ PROPS = {
         'level_text': 'Proof over R of every deterministic clause (better always accepted, undefined never, equal accepted at every temperature, worse never at kT <= 0, worse by d at kT > 0 accepted iff threshold < exp(-d/kT)), of the probability clause as a Lebesgue-measure statement (volume of accepting thresholds in [0,1) equals exp(-d/kT)), carrier-generic NaN clause, and that each step applies exactly this rule with its own draw, the current score and temperature. The threshold draw is exact: gen::<f64>() = (v >> 11)/2^53 and exactly 2^11*ceil(p*2^53) of the 2^64 raw outputs pass u < p, so the acceptance probability is within 2^-53 above exp(-d/kT) for a uniform raw output (C07Draw; closed form tied to the doubles by the rng unitq requests). Partial: uniformity of the raw output of Pcg64Mcg is trusted. energy_surface / test_acceptance / accept_score are regenerated from the source and proved equal to the model (TieAccept).',
         'level_note': 'Trusted: uniformity of rand\'s Standard f64 and Pcg64Mcg (the stream itself is pinned bit-for-bit by the rng family); Lean kernel + 3 axioms; Mathlib measure theory.',
         'technique': 'Lean 4 proof (real analysis, Lebesgue measure, exact counting of raw outputs) + source-to-Lean translation of the acceptance rule with tie theorems + bit-exact differential correspondence incl. PRNG port',
-        'theorems': ['Proofs.C07', 'Proofs.C07Draw', 'Proofs.TieAccept'],
+        'theorems': ['Proofs.C07', 'Proofs.C07Draw', 'Proofs.TieAccept', 'Proofs.TieLoopTail'],
         'families': [('rng', 400, 10000), ('opt', 1500, 30000)],
         'search': (10, 240),
         'rule': 'rng: raw PCG stream for 64 seeds and the three sampling functions; opt/optc as for C05; search: deterministic Metropolis clauses on every step whose outcome is visible in the recorded vectors, thresholds re-drawn with the real rand crate',
